@@ -61,7 +61,8 @@ def commonLock (a b : Access) : Bool :=
 H2 (memstore ownership).  The flusher reads the CONTENT of the memstore it was handed through
 `storeFlushChannel` (`via = handed`) without any lock; clients write the content of `RWMemstore.writeStore`
 under the db write lock.  These are never the same object at the same time: the only sends on the channel
-(`flushSends`) hand over `swapMemstore(db)` — which (`swapMemstoreBody`) returns the old write store AFTER
+(`flushSends`, receiver written `r`, parameters `p0` …, locals `v0` …: whatever they are called) hand over
+`swapMemstore(r)` — which (`swapMemstoreBody`) returns the old write store AFTER
 installing a brand-new one as `writeStore`, inside the sender's critical section — or a fresh empty store
 (verif hook).  All writes to the handed store precede the swap in the same critical section, the send follows
 the swap in program order, and the flusher's receive happens after the send (unbuffered channel).  From then on
